@@ -124,9 +124,15 @@ def probe_config(arg):
 def e2e(arg):
     off, ts, idx = arg
     extra = ["--disable-%s-%s" % (k.lower(), n) for k, n in off] + ([] if ts else ["--disable-thread-safety"])
-    bld = vbuild.build("asan" if False else "plain", extra_cfg=extra, tag="c13-e2e-%d" % idx)
     F = Findings(PROP)
     st = dict(e2e_builds=1, e2e_values=0)
+    try:
+        bld = vbuild.build("plain", extra_cfg=extra, tag="c13-e2e-%d" % idx)
+    except Harness as e:
+        if "configure failed" in str(e):
+            # ./configure itself refuses some combinations (e.g. a data source the default message format needs)
+            return F, dict(e2e_builds=0, e2e_values=0, e2e_rejected_by_configure=1)
+        raise
     exe = vbuild.build_vitro(bld, asan=False)
     work = mkwork("c13e")
     try:
